@@ -39,6 +39,7 @@ func (z *ResultSet) executeCertificate(o *x509.Certificate, registry lint.Regist
 	z.Results = make(map[string]*lint.LintResult, len(registry.Names()))
 	// Run each lint from the registry.
 	for _, lint := range registry.CertificateLints().Lints() {
+		verifPoint("run.lint", lint.Name)
 		res := lint.Execute(o, registry.GetConfiguration())
 		res.LintMetadata = lint.LintMetadata
 		z.Results[lint.Name] = res
@@ -53,6 +54,7 @@ func (z *ResultSet) executeRevocationList(o *x509.RevocationList, registry lint.
 	z.Results = make(map[string]*lint.LintResult, len(registry.Names()))
 	// Run each lints from the registry.
 	for _, lint := range registry.RevocationListLints().Lints() {
+		verifPoint("run.lint", lint.Name)
 		res := lint.Execute(o, registry.GetConfiguration())
 		res.LintMetadata = lint.LintMetadata
 		z.Results[lint.Name] = res
@@ -67,6 +69,7 @@ func (z *ResultSet) executeOcspResponse(o *ocsp.Response, registry lint.Registry
 	z.Results = make(map[string]*lint.LintResult, len(registry.Names()))
 	// Run each lints from the registry.
 	for _, lint := range registry.OcspResponseLints().Lints() {
+		verifPoint("run.lint", lint.Name)
 		res := lint.Execute(o, registry.GetConfiguration())
 		res.LintMetadata = lint.LintMetadata
 		z.Results[lint.Name] = res
